@@ -139,7 +139,10 @@ def generate(rng, tier):
         k = rng.choice([j for j, b in enumerate(builds) if b['kind'] != 'mibdump'])
         scn['faults'] = [{'op': k, 'site': rng.choice(['mkstemp', 'os.write', 'os.close', 'os.rename']), 'nth': 0,
                           'action': 'errno', 'arg': rng.choice(['EIO', 'ENOSPC', 'EACCES'])}]
-        if rng.random() < 0.4:
+        if rng.random() < 0.25:
+            scn['faults'][0]['action'] = 'kill'      # not an error return: the process dies there
+            scn['faults'][0]['arg'] = None
+        elif rng.random() < 0.4:
             f2 = dict(scn['faults'][0])
             f2['nth'] = 1        # should the code retry the call, it fails again
             scn['faults'].append(f2)
@@ -304,6 +307,8 @@ def run(scn):
                     res = 'ok'
                 except error.PySmiError as e:
                     res = 'pkgerror:%s' % type(e).__name__
+                except core.SimKill:
+                    res = 'killed'
                 except BaseException as e:  # noqa
                     if isinstance(e, (core.StepBudget, core.WorldTimeout)):
                         raise
@@ -311,6 +316,16 @@ def run(scn):
                 w.end_op(res)
                 maps.append(statuses if statuses is not None else {})
                 after = core.read_bytes(idxfile)
+                if res == 'killed':
+                    # the process died inside the build (before the new document was renamed into place): the next build is a new
+                    # process and finds the earlier index exactly as it was
+                    w.probe('process-killed-inside-index-build')
+                    longlived.clear()
+                    shapes.append((b['kind'], 'killed', bool(b.get('dryRun')), True))
+                    if after != before:
+                        V('C18.6-failed-write', 'index file changed although the process was killed before the new document was in place', what='changed-after-kill')
+                        break
+                    continue
                 faulted = len(w.fired_list) > fired_before
                 write_fault = any(f['site'] in ('mkstemp', 'os.write', 'os.close', 'os.rename') for f in w.fired_list[fired_before:])
                 read_fault = faulted and not write_fault
